@@ -188,9 +188,14 @@ func runHistory(c M) M {
 		app.VerifNow = func() time.Time { return fakeNow }
 		ticks := strs(cmd, "ticks")
 		nticks := 0
+		tickFiles := []string{}
 		util.VerifTick = nil
 		if len(args) > 0 && args[0] == "pause" {
 			util.VerifTick = func(counter int64) bool {
+				// the file as the previous iteration left it (before the first tick: as `pause` wrote it)
+				if b, rErr := os.ReadFile(filepath.Join(work, "f.klg")); rErr == nil {
+					tickFiles = append(tickFiles, bytesToSym(string(b)))
+				}
 				if int(counter) > len(ticks) {
 					return true
 				}
@@ -218,6 +223,7 @@ func runHistory(c M) M {
 		}
 		step["out"] = bytesToSym(out)
 		step["ticks_run"] = nticks
+		step["tick_files"] = tickFiles
 		touched := []string{}
 		ents, _ = os.ReadDir(work)
 		for _, e := range ents {
